@@ -63,7 +63,7 @@ def target_of(path):
 
 
 def campaign(job):
-    v, exe, target, k, seed, runs, known, rundir = job
+    v, exe, target, k, seed, runs, known, rundir, maxtime = job
     d = os.path.join(rundir, "%s-%d" % (target, k))
     corpus, art = os.path.join(d, "corpus"), os.path.join(d, "art")
     os.makedirs(corpus)
@@ -72,7 +72,7 @@ def campaign(job):
         for src in glob.glob(os.path.join(v.VERIF, "fuzz", "seeds", target, "*")) + glob.glob(os.path.join(v.VERIF, "fuzz", "corpus-min", target, "*")):
             shutil.copy(src, os.path.join(corpus, os.path.basename(src)))
     stats = os.path.join(d, "stats.json")
-    cmd = [exe, corpus, "-artifact_prefix=" + art + "/", "-max_len=4096", "-timeout=20", "-rss_limit_mb=2048", "-malloc_limit_mb=256", "-runs=%d" % runs,
+    cmd = [exe, corpus, "-artifact_prefix=" + art + "/", "-max_len=4096", "-timeout=20", "-rss_limit_mb=2048", "-malloc_limit_mb=256", "-runs=%d" % runs, "-max_total_time=%d" % maxtime,
            "-seed=%d" % (seed % (2 ** 31 - 2) + 1), "-dict=" + os.path.join(v.VERIF, "fuzz", "dict", "all.dict"), "-print_final_stats=1", "-close_fd_mask=1", "-use_value_profile=1", "-len_control=50"]
     t0 = time.time()
     log = os.path.join(d, "log.txt")
@@ -153,7 +153,7 @@ def check(v, tier, seed, replay=None):
             n = per + (1 if tier == "quick" and t in ("attributes", "datatable", "tokenizers", "keyval") else 0)
             for k in range(n):
                 s = v.splitmix(seed ^ int(hashlib.sha1((t + str(k)).encode()).hexdigest()[:12], 16))
-                jobs.append((v, exe, t, k, s, runs, active, rundir))
+                jobs.append((v, exe, t, k, s, runs, active, rundir, 75 if tier == "quick" else 1800))
         with cf.ThreadPoolExecutor(v.NCPU) as ex:
             results = list(ex.map(campaign, jobs))
         per_t = {}
